@@ -54,6 +54,10 @@ CHECKS = {
          "Each case is one Pin/Unpin/PinLsCid conversation with a prior daemon pin state, an optional update source (recursive/direct/absent), origins, and one fault (IPFS error body, non-JSON 500, reset before/inside the body, stall, progress-then-stall, progress-then-late-trailer-error, slow steady progress, already/not pinned errors) on one step. Success must imply the table holds the CID in the asked mode; healthy conversations must succeed; already-pinned must send no pin/add or pin/update; stalls must end in an error within 30 x pin_timeout while steady progress is not aborted; pin/update must carry unpin=false, be sent only for a recursively pinned source, and leave it pinned.",
          "The fake daemon's fidelity to go-ipfs conventions is an assumption (no go-ipfs in the sandbox). Wall clock is intrinsic to the stall clauses; bounds are 30x the configured value and cases run 8-wide.",
          "DESIGN.md §4 C16"),
+ "C13": ("exploration", "runtime conservation/read-back monitor: real adder pipeline (ipfsadd, single and sharding DAG services) over a recording RPC service; delivered blocks re-assembled with go-merkledag/go-unixfs and compared with the input; BlockPut faults at chosen positions",
+         "Generated file trees are added unsharded and sharded under varied chunkers, layouts, raw-leaves, CID versions, hash functions, wrap and replication settings. From the returned root the recorded blocks must be closed under links, hash to their CIDs, and read back byte-identical (tree shape included); sharded, unsharded and (for single files) go-unixfs importer roots must be equal; the pins must be exactly the root with the requested options and the block destinations, or meta + cluster-DAG + shards whose links partition the delivered blocks under the size limit with a max_depth that covers them; a BlockPut failure at call k must either fail the add without pinning the root or leave every block delivered.",
+         "Component level: a hostless RPC client runs every destination locally, so per-destination delivery is not distinguished. The reference importer is go-unixfs/importer (go-ipfs itself is not installed) and only single-file inputs have a reference root.",
+         "DESIGN.md §4 C13"),
 }
 
 ALL = ["C%02d" % i for i in range(1, 19)]
